@@ -120,7 +120,7 @@ func cmdSinkFaults(f hx.Flags, r *hx.Result) {
 			var p any
 			switch op.Op {
 			case "start":
-				ret, p = hx.Within(3*time.Second, func() { serr = app.Start() })
+				ret, p = hx.Within(8*time.Second, func() { serr = app.Start() })
 				if ret && p == nil && (serr != nil) != (op.Res == "error") {
 					r.Violate("start-result:"+c.Kind, desc, "op %d: Start returned %v, specification: %s", i, serr, op.Res)
 				}
@@ -128,11 +128,11 @@ func cmdSinkFaults(f hx.Flags, r *hx.Result) {
 				e := log.GetEvent()
 				e.Level, e.Tag, e.Time = log.InfoLevel, "t", time.Now()
 				e.Fields = []log.Field{log.Int("id", int64(i))}
-				ret, p = hx.Within(3*time.Second, func() { app.Append(e) })
+				ret, p = hx.Within(8*time.Second, func() { app.Append(e) })
 			case "write":
-				ret, p = hx.Within(3*time.Second, func() { app.Write([]byte(fmt.Sprintf("raw %d\n", i))) })
+				ret, p = hx.Within(8*time.Second, func() { app.Write([]byte(fmt.Sprintf("raw %d\n", i))) })
 			case "stop":
-				ret, p = hx.Within(3*time.Second, func() { app.Stop() })
+				ret, p = hx.Within(8*time.Second, func() { app.Stop() })
 			case "break":
 				fw.fail, ret = true, true
 			case "repair":
@@ -140,7 +140,7 @@ func cmdSinkFaults(f hx.Flags, r *hx.Result) {
 			}
 			r.Eval(1)
 			if !ret {
-				r.Violate("blocked:"+op.Op+":"+c.Kind, desc, "op %d: %s did not return within 3 s (target %s)", i, op.Op, c.Target0)
+				r.Violate("blocked:"+op.Op+":"+c.Kind, desc, "op %d: %s did not return within 8 s (target %s)", i, op.Op, c.Target0)
 				return nil
 			}
 			if p != nil {
